@@ -160,11 +160,15 @@ theorem run_refines' (g : G) (s : List Nat) (f : Nat) (p : P) (sk : Sk) (pos : N
       simp only [M.run, S.parse, ← ih a sk pos]
       rcases M.run g s f a sk pos with _ | ⟨va, p1⟩ | ⟨ft, p⟩ <;> simp [absRes]
     | ref i => simpa [M.run, S.parse] using ih (g.rules i) sk pos
+    | map m a =>
+      simp only [M.run, S.parse, ← ih a sk pos]
+      rcases M.run g s f a sk pos with _ | ⟨va, p1⟩ | ⟨ft, p⟩ <;> simp [absRes]
     | plus a => simp only [M.run, S.parse, sugar_refines, ih]
     | sep a b => simp only [M.run, S.parse, sugar_refines, ih]
     | list o a b c => simp only [M.run, S.parse, sugar_refines, ih]
     | uint m => simp only [M.run, S.parse, sugar_refines, ih]
     | int m => simp only [M.run, S.parse, sugar_refines, ih]
+    | float => simp only [M.run, S.parse, sugar_refines, ih]
 
 theorem parseString_refines (g : G) (f : Nat) (p : P) (sk : Sk) (s : List Nat) :
     M.parseString g f p sk s = S.parseString g f p sk s := by
